@@ -98,6 +98,23 @@ pub fn answer_case(case: &Value) -> Value {
             let v = jmespath::Rcvar::new(Variable::from_json(&data.to_string()).unwrap());
             answer!(e, &v)
         }
+        "deep-value" | "&deep-value" => {
+            // a document built in memory, nested deeper than any JSON text parser would accept
+            let d = data["depth"].as_u64().unwrap_or(1) as usize;
+            let shape = data["shape"].as_u64().unwrap_or(0);
+            let mut v = json!(1);
+            for i in 0..d {
+                v = match (shape, i % 2) {
+                    (0, _) | (2, 0) => json!([v]),
+                    _ => json!({ "k": v }),
+                };
+            }
+            if kind == "deep-value" {
+                answer!(e, v.clone())
+            } else {
+                answer!(e, &v)
+            }
+        }
         "string" => {
             let v = data.as_str().unwrap_or("").to_string();
             answer!(e, v.clone())
@@ -166,9 +183,10 @@ pub fn serve() {
 }
 
 fn gen_case(src: &mut Src, st: &mut Stats) -> Value {
+    let deep_exprs = ["@", "type(@)", "[0]", "k", "[0].k", "k[0]", "[0][0][0]", "not_null(@)", "length(@)", "to_array(@)[0]", "[@]", "@ == @", "length(to_string(@))", "*", "[]", "[][][]", "k.k.k"];
     let scalar_exprs = ["@", "abs(@)", "to_string(@)", "type(@)", "[@, @]", "@ == `1`", "length(@)", "@ > `0`", "to_number(@)", "not_null(@)", "{a: @}", "!@", "@ || `0`", "ceil(@)", "reverse(@)", "nope(@)", "@[0]", "@.a"];
     let kind = *src.pick(&[
-        "value", "&value", "variable", "&variable", "rcvar", "&rcvar", "string", "&str", "i8", "i16", "i32", "i64", "u8", "u16", "u32", "u64", "isize", "usize", "f32", "f64", "bool", "unit", "struct", "vec", "tuple", "map",
+        "value", "&value", "variable", "&variable", "rcvar", "&rcvar", "string", "&str", "i8", "i16", "i32", "i64", "u8", "u16", "u32", "u64", "isize", "usize", "f32", "f64", "bool", "unit", "struct", "vec", "tuple", "map", "deep-value", "&deep-value",
     ]);
     let doc_kind = matches!(kind, "value" | "&value" | "variable" | "&variable" | "rcvar" | "&rcvar");
     let expr: String = if doc_kind {
@@ -185,6 +203,8 @@ fn gen_case(src: &mut Src, st: &mut Stats) -> Value {
             }
             _ => src.pick(&["@", "length(@)", "[*][0]", "[-1]", "[][]", "rows[*][1]", "s == 'a b'", "o.\"k k\"", "strs[?@ == 'a b']", "`{\"a b\": 1}`.\"a b\"", "join(' , ', strs)", "'x  y'"]).to_string(),
         }
+    } else if kind.ends_with("deep-value") {
+        src.pick(&deep_exprs).to_string()
     } else {
         src.pick(&scalar_exprs).to_string()
     };
@@ -265,6 +285,15 @@ fn gen_case(src: &mut Src, st: &mut Stats) -> Value {
                 1 => gen_doc(src, &DocOpts::default()).to_value(),
                 _ => json!({"big": 18446744073709551615u64, "neg": i64::MIN, "f": 1.5, "s": "é😀", "n": null}),
             }
+        }
+        "deep-value" | "&deep-value" => {
+            let depth = match src.below(4) {
+                0 => src.below(20),
+                1 => 120 + src.below(20),
+                2 => 100 + src.below(200),
+                _ => src.size(300),
+            };
+            json!({"depth": depth, "shape": src.below(3)})
         }
         "string" | "&str" => json!(gen_string(src)),
         "i8" => json!(int_in(src, i8::MIN as i128, i8::MAX as i128)),
